@@ -12,6 +12,11 @@
 #include <utility>
 #include <vector>
 
+#ifdef C06_OPEN_PRIVATE
+// the scheduler-shim driver names the SDK's lock objects in the shim's log: it needs their addresses
+#  define private public
+#  define protected public
+#endif
 #include "opentelemetry/common/key_value_iterable_view.h"
 #include "opentelemetry/metrics/sync_instruments.h"
 #include "opentelemetry/sdk/common/global_log_handler.h"
@@ -22,6 +27,12 @@
 #include "opentelemetry/sdk/metrics/view/meter_selector.h"
 #include "opentelemetry/sdk/metrics/view/view.h"
 #include "opentelemetry/sdk/metrics/view/view_registry.h"
+#include "opentelemetry/sdk/metrics/meter.h"
+#include "opentelemetry/sdk/metrics/state/sync_metric_storage.h"
+#ifdef C06_OPEN_PRIVATE
+#  undef private
+#  undef protected
+#endif
 #include "common/verif_io.h"
 
 namespace nostd  = opentelemetry::nostd;
@@ -48,6 +59,8 @@ private:
 struct Handle
 {
   int kind = -1;   // 0 uint64 counter, 1 double counter, 2 int64 up-down, 3 double up-down
+  long long meter = -1;
+  std::string name;
   nostd::unique_ptr<mapi::Counter<uint64_t>> lc;
   nostd::unique_ptr<mapi::Counter<double>> dc;
   nostd::unique_ptr<mapi::UpDownCounter<int64_t>> lu;
@@ -138,6 +151,8 @@ static bool do_new(Sdk &s, const Toks &op)
   if (m < 0 || m >= (long long)s.meters.size() || k < 0 || k > 3) return false;
   std::unique_ptr<Handle> h(new Handle());
   h->kind = int(k);
+  h->meter = m;
+  h->name  = op[3].s;
   nostd::string_view name(op[3].s.data(), op[3].s.size());
   switch (k)
   {
